@@ -620,6 +620,14 @@ func (fr *Frame) instr(b *ssa.BasicBlock, in ssa.Instruction, st *State) *Exit {
 		r := fe.newRef(fr.name(x))
 		fr.vals[x] = Term{r, SInt, x.Type()}
 		fe.initRef(st, r, T, fe.zeroOf(T))
+		for _, g := range fe.eng.specs.ghostZero[typeKey(T)] {
+			if h, _, ok := fe.ghostHeap(g); ok {
+				z := map[Sort]string{SString: "\"\"", SInt: "0", SBool: "false"}[fe.eng.specs.ghosts[g]]
+				if z != "" {
+					fe.assume(fmt.Sprintf("(= (select %s %s) %s)", fe.hget(st, h), r, z))
+				}
+			}
+		}
 		if !fe.escapes(x) {
 			fe.protected[r] = T
 		}
